@@ -125,7 +125,7 @@ def verus_verdict(tier, use_cache=True):
 def _verus_verdict_once(tier, use_cache, dropped, override=None, drop_fns=()):
     w = W.weave(REPO, CONTRACTS, extra_modules=lemma_modules(), drop_directives=dropped, override_src=override, drop_extra_fns=drop_fns)
     fns = V.fn_table(w.text)
-    rlimit = 80 if tier == 'quick' else 160
+    rlimit = int(os.environ.get('VERIF_RLIMIT', 80 if tier == 'quick' else 160))
     key = hashlib.sha256((w.sha + '|rl%d' % rlimit).encode()).hexdigest()
     cpath = os.path.join(CACHE, 'verus', key + '.json')
     res = None
@@ -147,6 +147,23 @@ def _verus_verdict_once(tier, use_cache, dropped, override=None, drop_fns=()):
     inv = V.inventory(w.text, fns)
     # stability: a failure must recur under two other solver seeds (module-restricted re-runs); otherwise it is
     # reported as unstable (undecided), never as a violation
+    # resource limits are not verdicts: a function that ran out of rlimit is re-verified under two other seeds with a doubled
+    # budget; a proof found under any seed is a proof (recorded as `verified_on_retry`)
+    starved = [d for d in diags if d.fn is not None and d.undecided and re.search(r'rlimit|[Rr]esource limit|timed? ?out', d.message)]
+    if starved and not os.environ.get('VERIF_NO_RETRY'):
+        mods_s = sorted(set(d.fn.module for d in starved if d.fn.module))
+        rescued = set()
+        for seed in (7, 23):
+            r3 = V.run_verus(w.text, modules=mods_s, rlimit=rlimit * 3, timeout=1800, extra=['--smt-option', 'smt.random_seed=%d' % seed])
+            d3 = V.classify(r3, w.text, fns, ins_lines=set(w.ins_line.keys()))
+            bad3 = set(d.fn.id for d in d3 if d.fn is not None)
+            if r3.get('verified') is not None:
+                for d in starved:
+                    if d.fn.id not in bad3:
+                        rescued.add(d.fn.id)
+        if rescued:
+            diags = [d for d in diags if not (d in starved and d.fn.id in rescued)]
+            res['verified_on_retry'] = sorted(rescued)
     failing = [d for d in diags if d.fn is not None and not d.undecided]
     if failing and not os.environ.get('VERIF_NO_RETRY'):
         mods = sorted(set(d.fn.module for d in failing if d.fn.module))
